@@ -24,6 +24,8 @@ type fsckInfo struct {
 	HalfFreed      int // free inodes that still hold blocks (freeing in progress)
 	HalfFreedBlks  int
 	HalfFreedWhat  string // the first such inode, for reports
+	HalfFreedInos  []uint64 // free inodes that hold blocks
+	LiveShrinking  []uint64 // inodes in use whose shrink mark is above their size (a truncation was interrupted)
 	Dirs, Files    int
 	BitmapUsedBlks int // data-region blocks marked in the bitmap
 	BitmapUsedIno  int
@@ -239,7 +241,11 @@ func fsck(r *Rig, nameMax uint64) (info *fsckInfo, err error) {
 			}
 		}
 		info.BlocksOwned += cnt
+		if inUse && ip.IsShrinking() {
+			info.LiveShrinking = append(info.LiveShrinking, ino)
+		}
 		if !inUse && cnt > 0 {
+			info.HalfFreedInos = append(info.HalfFreedInos, ino)
 			info.HalfFreed++
 			info.HalfFreedBlks += cnt
 			if info.HalfFreedWhat == "" {
